@@ -45,7 +45,10 @@ def ranges_full():
     return sorted(rs)
 
 
-TAILS = [(1, 0, 8), (1, 2, 7), (2, 7, 16), (2, 3, 3), (2, 8, 16), (1, 7, 8), (2, 1, 14), (2, 0, 16)]
+# second operands: aligned byte, short unaligned, 9 bits ending aligned, a whole byte at an odd bit offset (the case a
+# "tail is whole bytes, copy its backing bytes" shortcut gets wrong), aligned second byte, last bit, 13 unaligned bits, two
+# bytes, empty
+TAILS = [(1, 0, 8), (1, 2, 7), (2, 7, 16), (2, 3, 11), (2, 8, 16), (1, 7, 8), (2, 1, 14), (2, 0, 16), (2, 3, 3)]
 
 
 def R(l, a, b, sh):
